@@ -63,7 +63,9 @@ def RSubj.observable (r : RSubj) : Obsv := fun s =>
         | some e => .obsError s e.toInt.toNat .done
         | none => if wc.toBool then .obsComplete s .done else .done)))
     (fun x => .obsNext s x .done) (fun e => .obsError s e .done) (.obsComplete s .done)
-    fun h => .cellWrite sbsc false h .done
+    fun h => .cellWrite sbsc false h <|
+      -- the subscriber ended during the replay: take its forwarder down again
+      .obsIsSub s fun alive => if alive then .done else subUnsub h
 
 /-! ### AsyncSubject = Subject.take_last(1) -/
 def asyncObservable (sj : Subj) : Obsv := stdOp (kTakeLast 1) sj.observable
